@@ -1,13 +1,35 @@
-(* C13 - generation terminates on every input text (placeholder layer: the transducer lexer of
-   LexRoundtrip; superseded by the front-end model when it lands) *)
-From Coq Require Import List Ascii.
+(* C13 - generation terminates on every input text: the lexer *)
+From Coq Require Import List Ascii Arith.
 Import ListNotations.
-From YG Require Import LexRoundtrip.
+From YG Require Import Lexer LexerProofs.
 
-(* the lexer model is a fold over the bytes: it is total, and lexing a concatenation is lexing the
-   first part and continuing from the state reached - there is no way for it to stop consuming input *)
+(* Lexer.lex_step mirrors one visit of rootState in Parser/Lex.go together with the state functions it dispatches
+   to (comments, directives, %{ %}, %union { }, actions, character and string literals, identifiers, numbers);
+   lex_root is the run loop of the lexer goroutine.  The model is compared token by token with the real lexer on
+   every prefix and on random edits of grammar files on every run. *)
+
+(* every return to rootState has consumed at least one byte of the input - whatever the bytes are *)
+Theorem C13_lexer_progress :
+  forall (carry s : list ascii) (ts : list tok) (carry' rest : list ascii),
+    lex_step carry s = Cont ts carry' rest -> length rest < length s.
+Proof. exact LexerProofs.lex_step_progress. Qed.
+Print Assumptions C13_lexer_progress.
+
+(* hence |input|+1 visits always suffice: the lexer never runs out of fuel, on any byte string *)
 Theorem C13_lexer_total :
-  forall (st : lstate) (a b : list ascii),
-    run st (a ++ b) = (let '(s1, o1) := run st a in let '(s2, o2) := run s1 b in (s2, (o1 ++ o2)%list)).
-Proof. exact LexRoundtrip.run_app. Qed.
+  forall s : list ascii, forall t : tok, In t (fst (lex s)) -> t_kind t <> LxFuel.
+Proof. exact LexerProofs.lex_total. Qed.
 Print Assumptions C13_lexer_total.
+
+(* the token stream does not depend on the fuel once it exceeds the length of the input *)
+Theorem C13_lexer_fuel_irrelevant :
+  forall (f1 f2 : nat) (carry s : list ascii), length s < f1 -> length s < f2 -> lex_root f1 carry s = lex_root f2 carry s.
+Proof. exact LexerProofs.lex_root_fuel_indep. Qed.
+Print Assumptions C13_lexer_fuel_irrelevant.
+
+(* and it is finite: at most |input|+2 tokens before the tail behaviour (EOF for ever / the error for ever) sets in,
+   which bounds the number of tokens the parser can consume before it sees EOF or an error *)
+Theorem C13_token_bound :
+  forall (fuel : nat) (carry s : list ascii), length s < fuel -> length (fst (lex_root fuel carry s)) <= length s + 2.
+Proof. exact LexerProofs.lex_root_length. Qed.
+Print Assumptions C13_token_bound.
